@@ -29,7 +29,7 @@ RULE = ("cases: fitter configurations with <= k deviations from the default; exe
         "(fit, model) row, each compared at every grid distance; non-trivial = distinct (configuration, flags, photometry) with >1 grid distance")
 ASSUMPTIONS = ["finite value alphabets (DESIGN.md section 0)", "theta*dmin not below the smallest aperture (precondition)",
                "sources have >= 1 fitted point with non-zero extinction coefficient"]
-REQUIRED_CLASSES = ['more-than-128-trial-distances', 'av-range-given-as-integers', 'grid-of-hundreds-of-models', 'n_distances==1', 'aperture-beyond-table', 'best-at-first', 'best-interior', 'best-at-last', 'av-clipped-some-distances',
+REQUIRED_CLASSES = ['second-fitter-built-before-the-first-is-used', 'more-than-128-trial-distances', 'av-range-given-as-integers', 'grid-of-hundreds-of-models', 'n_distances==1', 'aperture-beyond-table', 'best-at-first', 'best-interior', 'best-at-last', 'av-clipped-some-distances',
                     'range-multiple-of-step', 'range-exact-multiple-exact-arithmetic', 'float32-path', 'limit-violated', 'non-monotone-growth', 'mixed-theta', 'request-on-smallest-aperture', 'distance-range-in-other-unit', 'apertures-in-other-angular-unit', 'aperture-tables-differ-between-bands', 'aperture-table-stored-decreasing', 'source-reflagged-between-fits']
 TIMEOUT = {'quick': 300, 'thorough': 1800}
 
@@ -147,6 +147,13 @@ def run_case(ctx, case, rec, d):
         raise
     if case['range'] == 'onsmallest':
         rec.cls('request-on-smallest-aperture')
+    if memmap:
+        # a second fitter on the same package (resolved models removed) is built before the first one is used
+        try:
+            fc.make_fitter(md, BANDS, 'power', (avlo, avhi), distance_range_kpc=(dmin, dmax), theta=theta, memmap=True, by_wavelength=bywav, remove_resolved=True)
+            rec.cls('second-fitter-built-before-the-first-is-used')
+        except Exception:
+            pass
     f32 = fc.observed_f32(fitter)
     if f32:
         rec.cls('float32-path')
